@@ -20,6 +20,7 @@ import (
 	"github.com/google/gce-tcb-verifier/rotate"
 	styp "github.com/google/gce-tcb-verifier/sign/types"
 	"github.com/google/gce-tcb-verifier/testing/nonprod/memkm"
+	"google.golang.org/protobuf/encoding/prototext"
 	"google.golang.org/protobuf/proto"
 )
 
@@ -391,7 +392,9 @@ func verifManifestMarshalImpl(m proto.Message) ([]byte, error) {
 	return []byte{0x3A, byte(len(verifManifestReg))}, nil
 }
 
-func verifManifestMarshal(o any, m proto.Message) ([]byte, error) { return verifManifestMarshalImpl(m) }
+func verifManifestMarshal(o prototext.MarshalOptions, m proto.Message) ([]byte, error) {
+	return verifManifestMarshalImpl(m)
+}
 
 func verifManifestUnmarshal(b []byte, m proto.Message) error {
 	mm := m.(*cpb.GCECertificateManifest)
